@@ -88,6 +88,17 @@ def configs(tier):
         for mat in ('sym', 'nonsym'):
             for v in (0, 1):
                 cfgs.append({'kind': 'quadform', 'space': sp, 'mat': mat, 'vec': v})
+        # no quadratic part: linear (constant 0) or affine (constant != 0), argument-scaled
+        for c in (0.0, 0.5):
+            for sc in (None, 2.0, -0.5):
+                cfgs.append({'kind': 'quadform', 'space': sp, 'mat': 'none', 'vec': 1, 'const': c,
+                             'scale': sc})
+    for sp in ('rn3', 'rn3f32', 'ud3'):
+        for meth in ('forward', 'central', 'backward'):
+            for nm in ('L2NormSquared', 'Huber', 'KullbackLeibler'):
+                if nm == 'KullbackLeibler' and sp == 'rn3f32':
+                    continue
+                cfgs.append({'kind': 'numgrad', 'space': sp, 'method': meth, 'name': nm})
     return cfgs
 
 
@@ -112,7 +123,15 @@ def _site(cfg):
     if k == 'moreau':
         return 'MoreauEnvelope(%s)[%s]' % (cfg['name'], _sk(cfg['space']))
     if k == 'quadform':
-        return 'QuadraticForm[%s,vector=%d,%s]' % (cfg['mat'], cfg['vec'], _sk(cfg['space']))
+        extra = ''
+        if cfg['mat'] == 'none':
+            extra = ',const=%s,scaled=%s' % (cfg['const'] != 0, cfg.get('scale') is not None)
+        return 'QuadraticForm[%s,vector=%d%s,%s]' % (cfg['mat'], cfg['vec'], extra, _sk(cfg['space']))
+    if k == 'numgrad':
+        return 'NumericalGradient[%s,%s,%s,%s]' % (cfg['method'], cfg['name'],
+                                                   'single' if cfg['space'] == 'rn3f32' else 'double',
+                                                   _sk(cfg['space']) if cfg['space'] != 'rn3f32'
+                                                   else 'tensor,unweighted')
     return k
 
 
@@ -239,6 +258,17 @@ def _build(cfg):
         V = FR.V5P if spec.posdom else FR.V5
         return dict(f=f, info=info, ref=env, V=V, dom=lambda z: True, novalue=True,
                     c11=1.0 / sg)
+    if k == 'quadform' and cfg['mat'] == 'none':
+        info = FR.info(cfg['space'])
+        b = np.array([0.5, -1.0])
+        c = cfg['const']
+        f = odl.solvers.QuadraticForm(vector=info.elem(b), constant=c)
+        sc = cfg.get('scale')
+        if sc is not None:
+            f = f * sc        # documented: (f * a)(x) = f(a * x)
+        a = 1.0 if sc is None else sc
+        return dict(f=f, info=info, ref=lambda z: info.inner(a * np.asarray(z), b) + c, V=FR.V5,
+                    dom=lambda z: True)
     if k == 'quadform':
         info = FR.info(cfg['space'])
         A = np.array([[2.0, 0.5], [0.5, 1.0]]) if cfg['mat'] == 'sym' else \
@@ -259,8 +289,42 @@ def _eq(a, b, tol):
     return abs(a - b) <= tol * (1.0 + max(abs(a), abs(b)))
 
 
+def _run_numgrad(cfg, site):
+    """NumericalGradient (default step) against the analytic gradient, on double and single
+    precision spaces: the documented approximation must be accurate to its truncation order."""
+    spec = FR.BY_NAME[cfg['name']]
+    info = FR.info(cfg['space'])
+    o = spec.opts[0]
+    f = spec.build(info.space, o)
+    first = {}
+    evals = 0
+    single = cfg['space'] == 'rn3f32'
+    try:
+        ng = odl.solvers.NumericalGradient(f, method=cfg['method'])
+        dom = spec.dom(info, o) if spec.dom else (lambda z: True)
+        V = [0.25, 2.0, 3.0] if spec.posdom else [-2.0, 0.75, 3.0]
+        for x in S.points(info.n, V):
+            if not all(dom(x + s * 0.05 * e) for e in np.eye(info.n) for s in (1, -1)):
+                continue
+            xe = info.elem(x)
+            ga = S.to_flat(f.gradient(xe)).astype(float)
+            gn = S.to_flat(ng(xe)).astype(float)
+            evals += 1
+            tol = (5e-2 if single else 1e-4) * (1.0 + np.abs(ga).max())
+            if not np.all(np.isfinite(gn)) or np.abs(gn - ga).max() > tol:
+                first.setdefault('numerical_gradient_far_from_gradient',
+                                 'x=%s: NumericalGradient gives %s, gradient is %s'
+                                 % (x.tolist(), gn.tolist(), ga.tolist()))
+    except Exception as e:
+        first.setdefault('raises:' + type(e).__name__, repr(e)[:300])
+    return {'evals': evals, 'sig': site,
+            'viol': [{'site': site, 'symptom': s, 'detail': d} for s, d in first.items()]}
+
+
 def run(cfg):
     site = _site(cfg)
+    if cfg['kind'] == 'numgrad':
+        return _run_numgrad(cfg, site)
     try:
         B = _build(cfg)
     except NotImplementedError:
